@@ -214,6 +214,9 @@ def gen_nodes(rng, n_iri=4, n_bn=1, n_lit=2):
     nodes = [EX["n%d" % i] for i in range(n_iri)]
     nodes += [BNode("b%d" % i) for i in range(n_bn)]
     lits = [Literal(i) for i in range(n_lit)]
+    if lits and rng.random() < 0.3:
+        # a plain string whose lexical form spells a node of the same graph (IRI or blank node label): a distinct term
+        lits[-1] = Literal(str(rng.choice(nodes)))
     return nodes, lits
 
 
